@@ -10,7 +10,7 @@ from common import Driver, DriverFailure, REPO, hx
 
 LEVEL = "proof"
 MANIFEST = dict(
-    text="Lean 4 theorems over the command model (on C02's accessor model and C05's echo application) for every well-formed item, every 1024-byte block (= every  Session 4: a LONG session on one connection (140 pack commands, more than two cycles of the command sequence numbers): each still one well-formed in-range command, applied and read back. Session 4: a long session on the blocking client too (real GeckoSpa, real pump and switch classes, 150 commands decoded by the real SPACK decoder, stored and echoed)."
+    text="Lean 4 theorems over the command model (on C02's accessor model and C05's echo application) for every well-formed item, every 1024-byte block (= every  Session 4: a LONG session on one connection (140 pack commands, more than two cycles of the command sequence numbers): each still one well-formed in-range command, applied and read back. Session 4: a long session on the blocking client too (real GeckoSpa, real pump and switch classes, 150 commands decoded by the real SPACK decoder, stored and echoed). Also: a command issued while another exchange holds the connection for longer than a request timeout goes out exactly once."
          "current state) and every argument: an on/off command emits at most one command and none exactly when already in the requested state (one_or_none); key-press "
          "devices press once and - the spa toggling being the property's stated assumption - reach the requested state after which the command is a no-op; direct-write "
          "switches (economy mode), pump modes, temperature unit and watercare emit exactly one set-value / SETWC that the spa can store and that reads back as requested "
@@ -344,6 +344,56 @@ def run_snapshot(ctx, snapshot, lines, impl_ans, rng, long_session=True):
                                   f"one SETWC; spa and client both read mode {want} afterwards",
                                   {"error": err, "setwc_sent": len(sent), "spa_mode": sim.wc_mode, "client_mode": wc.mode})
                     break
+            # ---- a command issued while ANOTHER exchange holds the connection for longer than a request timeout (the spa is slow
+            #      to answer the facade's watercare poll): the command waits for the lock, then goes out ONCE and is applied
+            if switches or fac.pumps:
+                sim.hold_wc = True
+                del sim.held[:]
+                for _ in range(80):
+                    if sim.held:
+                        break
+                    try:
+                        gcfg.set_config_mode(gcfg.GeckoConfig.PING_FREQUENCY_IN_SECONDS == gcfg._GeckoActiveConfig.PING_FREQUENCY_IN_SECONDS)
+                    except Exception:  # noqa
+                        pass
+                    await asyncio.sleep(0.1)
+                if sim.held:
+                    n0 = len(sim.commands)
+                    if fac.pumps:
+                        p0 = fac.pumps[0]
+                        ud0 = spa.accessors[p0._user_demand["demand"]]
+                        ms0 = [m_ for m_ in p0.modes if m_]
+                        want0 = ms0[0] if ud0.value != ms0[0] else ms0[1]
+                        t = asyncio.ensure_future(p0.async_set_mode(want0))
+                        read0 = lambda: ud0.value
+                    else:
+                        d0 = switches[0]
+                        want0 = not d0.is_on
+                        t = asyncio.ensure_future(d0.async_turn_on() if want0 else d0.async_turn_off())
+                        read0 = lambda: d0.is_on
+                    await asyncio.sleep(gcfg.GeckoConfig.PROTOCOL_TIMEOUT_IN_SECONDS + 1.5)       # the poll's first attempt has timed out by now
+                    sim.hold_wc = False
+                    live = [x for x in net.transports if not x.closed]
+                    for hdl in sim.held:
+                        if live:
+                            net.push(live[-1], hdl.send_bytes)
+                    del sim.held[:]
+                    try:
+                        await asyncio.wait_for(t, 120)
+                        err = None
+                    except Exception as e:  # noqa
+                        err = type(e).__name__
+                    await settle(2.0)
+                    ctx.count("evaluations")
+                    ctx.hist("commands", "command-behind-slow-exchange")
+                    sent = [c for c in sim.commands[n0:] if c.get("kind") in ("key", "set")]
+                    if err is not None or len(sent) != 1 or read0() != want0:
+                        ctx.violation("command-behind-slow-exchange", {"snapshot": name, "want": str(want0)},
+                                      "exactly one command datagram once the connection is free; the requested value reads back",
+                                      {"error": err, "command_datagrams": len(sent), "reads_back": str(read0())})
+                else:
+                    sim.hold_wc = False
+                    ctx.hist("commands", "command-behind-slow-exchange:poll-not-seen")
             # ---- a LONG session on the one connection: more than two whole cycles of the command sequence numbers (64 values),
             #      every command still one well-formed in-range SPACK that the spa applies and echoes
             packs = lambda: [c for c in sim.commands if c["kind"] in ("key", "set")]
